@@ -78,8 +78,11 @@ def run(res):
     illegal = [r[0] for r in rows if r[3] == "NONE" and r[0].startswith("F ") and r[2] == "ERR"
                and not (r[0].split(" ")[2].startswith("br") or r[0].split(" ")[2] in ("rjmp", "rcall"))]      # (those depend on the address)
     rng.shuffle(illegal)
+    # (the pointer and displacement forms pass through the operand grammar first: all of them, not a sample)
+    pointer = [c for c in illegal if "+q" in c or ",X" in c or ",-" in c or " X" in c.split(" ", 3)[3] or " -" in c]
+    pointer = [c for c in pointer if c.split(" ")[3].count(",") <= 1][:1500 if res.tier == "quick" else 100000]
     progs = []
-    for cse in illegal[:600 if res.tier == "quick" else 60000]:
+    for cse in pointer + illegal[:600 if res.tier == "quick" else 60000]:
         bad = c01.to_source(cse)
         shape = rng.randrange(6)
         tail = [[".dseg", "v: .byte 1"], [".eseg", " .db 1"], [".org 0x100", " nop"], [".dseg", ".byte 2", ".cseg", " nop", ".eseg", " .db 3"], [" nop", " ret"], []][shape]
